@@ -325,6 +325,9 @@ HINT_TEXTS = [
     "{key} äöüß € ∧∨⊻ [1] U [2]",
     "{key}  zwei  Leerzeichen   drei (wie aus einem PDF kopiert) ",
     "{key} " + "sehr langer Hinweistext, " * 120,  # about 3000 characters
+    # texts are data: characters with a compatibility mapping or a decomposed form are kept as they are
+    "{key} Zählerstand in m³, Brennwert in kWh/m² … ½ µ ﬁ №",
+    "{key} Za\u0308hler (zerlegt) A\u030a \u1e9b\u0323 \u00a0 \u2009 ＡＢ①",
     "",  # a hint that exists but has no text (Dict[str, Optional[str]]: only None means "no such hint")
 ]
 
